@@ -274,6 +274,23 @@ func genProgress(c *ctx) {
 		}
 	}
 
+	// the same defect without a panic: on 5 columns the bar is dropped, and a percentage that
+	// is not clamped makes the line wider than the terminal ("10000000%" before the fix)
+	{
+		p := trzsz.VerifNewProgress(5, 0, "")
+		p.OnNum(1)
+		p.OnName("a.txt")
+		p.OnSize(1)
+		p.TakeOutput()
+		var out string
+		if pan, _ := c20Recover(func() { p.OnStep(100000); out = p.TakeOutput() }); !pan {
+			if w := c20Width(out); w > 5 {
+				c.violate("width:columns=5,size=1,step=100000", "progress line wider than the terminal",
+					fmt.Sprintf("newTextProgressBar(columns=5) onNum(1) onName(\"a.txt\") onSize(1) onStep(100000): width=%d line=%q", w, out))
+			}
+		}
+	}
+
 	// ---- getEllipsisString
 	for _, name := range c20NameCorpus {
 		for _, mx := range []int{20, 30, 40, 50, 3, 4, 0} {
